@@ -233,3 +233,43 @@ func ZZ_C03_SplitBoundary() {
 	send(small)
 	zzCheckCdrFile("after a small report to an almost full record")
 }
+
+// C03 when the file shrinks: two sessions of one subscriber are updated (the
+// file holds both records), then one is released or updated with a partial
+// record trigger - operations after which the CHF writes fewer or shorter
+// records to the same path; after every write the file is well-formed (in
+// particular it ends after the last record it announces).
+//
+//gosx:property=C03 tier=quick unwind=40 timeout=30000
+func ZZ_C03_ShrinkingRewrite() {
+	p := zzSetup()
+	zzAccount(zzSupi, 1, 1000000, 10)
+	refA, _ := zzCreate(p, "A", zzSupi)
+	refB, _ := zzCreate(p, "B", zzSupi)
+	mk := func(l string, n int) models.ChfConvergedChargingChargingDataRequest {
+		u, _ := zzUsageInd(l, 1, 1, 1)
+		zzSmallUsage(&u)
+		u.UsedUnitContainer[0].QuotaManagementIndicator = models.QuotaManagementIndicator_OFFLINE_CHARGING
+		u.UPFID = zzLongString(n)
+		return models.ChfConvergedChargingChargingDataRequest{SubscriberIdentifier: zzSupi,
+			MultipleUnitUsage: []models.ChfConvergedChargingMultipleUnitUsage{u}}
+	}
+	c1, c2 := &gin.Context{}, &gin.Context{}
+	p.HandleChargingdataUpdate(c1, mk("a", 300), refA)
+	p.HandleChargingdataUpdate(c2, mk("b", 300), refB)
+	vx.Assert("updates answered 200", vx.HTTPStatus(c1) == 200 && vx.HTTPStatus(c2) == 200)
+	zzCheckCdrFile("after updates of two sessions")
+	c3 := &gin.Context{}
+	switch vx.Choice("then", 3) {
+	case 0:
+		p.HandleChargingdataRelease(c3, mk("r", 5), refA)
+		vx.Assert("release answered 204", vx.HTTPStatus(c3) == 204)
+	case 1:
+		p.HandleChargingdataRelease(c3, mk("r", 5), refB)
+		vx.Assert("release answered 204", vx.HTTPStatus(c3) == 204)
+	default:
+		p.HandleChargingdataUpdate(c3, mk("u", 5), refA)
+		vx.Assert("update answered 200", vx.HTTPStatus(c3) == 200)
+	}
+	zzCheckCdrFile("after an operation that writes a shorter file")
+}
